@@ -488,7 +488,7 @@ func checkC12(c *Ctx, r *Report) {
 			// verbatim
 			keyV := fmt.Sprintf("C12.verbatim:%s→%s@%s", rt.name, d.Kind, strings.TrimPrefix(d.Chain, rt.name))
 			p := "param:" + rt.fn.Params[1].Name()
-			if d.Arg == p || d.Arg == "bytes.Clone("+p+")" || d.Arg == "slices.Clone("+p+")" || strings.HasPrefix(d.Arg, "builtin:append(nil,"+p) {
+			if d.Arg == p || d.Arg == "bytes.Clone("+p+")" || d.Arg == "slices.Clone("+p+")" || d.Arg == "builtin:append(nil,"+p+")" {
 				r.OK(keyV, "delivers %s", d.Arg)
 			} else {
 				r.Fail(keyV, d.Pos, "delivers %s instead of the caller's bytes", d.Arg)
